@@ -113,8 +113,10 @@ func main() {
 				p.Do(w, arg{From: &from, To: nil, Probes: win, Scribble: win[(int(i)+3)%len(win)]})
 				p.Do(w, arg{From: nil, To: &from, Probes: win, Scribble: win[(int(i)+5)%len(win)]})
 			})
-			w := ymd{2024, 2, 29}
-			p.Do(&mc.W{R: r}, arg{Probes: win, Scribble: w})
+			r.Serial(func(w *mc.W) {
+				w.Points(n)
+				p.Do(w, arg{Probes: win, Scribble: ymd{2024, 2, 29}})
+			})
 		})
 		a, b := ymd{2024, 2, 29}, ymd{2024, 3, 1}
 		r.Sample("triple", arg{From: &a, To: &b, Probes: []ymd{{2024, 2, 28}, {2024, 2, 29}, {2024, 3, 1}, {2024, 3, 2}}, Scribble: ymd{2000, 1, 1}})
